@@ -16,4 +16,8 @@ def build(tier):
     for n in ([1, 2] if tier == 'quick' else [1, 2, 3]):
         O.append(Obligation('verifreg.remove_expired_allocations[ids=%d]' % n, run_remove_allocs(n), props_remove_allocs,
                             descr='only expired allocations are removed; refund = their total size, to their client', bounds='%d explicit ids' % n, max_paths=60000))
+    for (na, ne) in ([(1, 0), (0, 1), (1, 1), (2, 0)] if tier == 'quick' else [(1, 0), (0, 1), (1, 1), (2, 0), (0, 2), (2, 1)]):
+        O.append(Obligation('verifreg.universal_receiver_hook[allocations=%d, extensions=%d]' % (na, ne), run_receiver_hook(na, ne), props_receiver_hook,
+                            descr='datacap received = total size of new allocations + extended claims exactly; extension spend burnt at once; allocations recorded for the token sender',
+                            bounds='%d allocation request(s), %d claim extension(s); claims table symbolic; burn send may fail' % (na, ne), max_paths=200000))
     return O
